@@ -311,10 +311,43 @@ func SigScripts(t *rapid.T) SigProgram {
 	if uSepFirst || uSepMid {
 		desc += "+unlock-sep"
 	}
+	// a signature operation inside the unlocking script itself (<sig> <key> [CODESEPARATOR]
+	// CHECKSIG DROP) before or after the pushes: its script code is the unlocking script's, and
+	// nothing it computes may carry over into the locking script's checks
+	uCheck := !p2sh && len(slots) > 0 && rapid.IntRange(0, 5).Draw(t, "u_check") == 0
+	uSlot, uAtEnd, uSepIn := -1, false, false
+	var uTail []byte
+	if uCheck {
+		uSlot = newSlot(0)
+		if rapid.IntRange(0, 2).Draw(t, "u_check_sameht") > 0 {
+			slots[uSlot].ht = slots[0].ht
+		}
+		slots[uSlot].class = rapid.SampledFrom([]string{"correct", "correct", "correct", "wrongmsg", "lockcode", "lockcode", "empty", "garbage"}).Draw(t, "u_check_class")
+		uAtEnd = rapid.Bool().Draw(t, "u_check_end")
+		uSepIn = rapid.IntRange(0, 2).Draw(t, "u_check_sep") > 0
+		uTail = rapid.SampledFrom([][]byte{{0x75}, {0x75}, {0x69}, {0x91, 0x75}}).Draw(t, "u_check_tail")
+		if rapid.IntRange(0, 3).Draw(t, "u_check_cross") == 0 { // a locking-script signature made over the unlocking script's code
+			j := rapid.IntRange(0, uSlot-1).Draw(t, "u_check_cross_slot")
+			slots[j].class = "unlockcode"
+			slots[j].ht = slots[uSlot].ht
+		}
+		desc += "+unlock-checksig"
+	}
+	uBlock := func(sigs map[int][]byte) []byte {
+		b := append(Push(sigs[uSlot], 0), Push(keys[0].pub, 0)...)
+		if uSepIn {
+			b = append(b, 0xab)
+		}
+		b = append(b, 0xac)
+		return append(b, uTail...)
+	}
 	build = func(sigs map[int][]byte) []byte {
 		var u []byte
 		if uSepFirst {
 			u = append(u, 0xab)
+		}
+		if uCheck && !uAtEnd {
+			u = append(u, uBlock(sigs)...)
 		}
 		pk := 0
 		for n, e := range unlockOrder {
@@ -338,11 +371,22 @@ func SigScripts(t *rapid.T) SigProgram {
 		if p2sh {
 			u = append(u, Push(redeemOf(sigs), 0)...)
 		}
+		if uCheck && uAtEnd {
+			u = append(u, uBlock(sigs)...)
+		}
 		if uReturn {
 			u = append(u, 0x6a)
 			u = append(u, uJunk...)
 		}
 		return u
+	}
+	if uCheck {
+		p := make([]byte, 71)
+		p[0], p[1], p[70] = 0xf5, slots[uSlot].id, slots[uSlot].ht
+		ph[uSlot] = p
+		for i, sl := range slots { // hash types may have been aligned above
+			ph[i][70] = sl.ht
+		}
 	}
 	rc := &recChecker{codes: map[byte][]byte{}}
 	pass1Flags := flags & (interp.FlagForkID | interp.FlagAfterGenesis)
@@ -353,9 +397,32 @@ func SigScripts(t *rapid.T) SigProgram {
 	// pass 2: real signatures
 	real := map[int][]byte{}
 	for i, s := range slots {
+		if i == uSlot {
+			// signed last: its script code is the unlocking script, which holds the others
+			for j := range slots {
+				if _, ok := real[j]; !ok {
+					real[j] = ph[j]
+				}
+			}
+			rc2 := &recChecker{codes: map[byte][]byte{}}
+			interp.VerifyScript(build(real), buildLock(real), pass1Flags, rc2, false, interp.DefaultLimits)
+			if c, ok := rc2.codes[s.id]; ok {
+				rc.codes[s.id] = c
+			}
+		}
 		code, ok := rc.codes[s.id]
 		if !ok {
 			code = lockBody // the slot is never checked; sign something plausible
+		}
+		switch s.class {
+		case "unlockcode":
+			if c, ok := rc.codes[slots[uSlot].id]; ok {
+				code = c
+			}
+		case "lockcode":
+			if c, ok := rc.codes[slots[0].id]; ok {
+				code = c
+			}
 		}
 		ht := s.ht
 		k := keys[s.key]
